@@ -128,7 +128,6 @@ theorem looping_iff_budget_spent (c : Cfg ℝ) (hc : CfgOK c) (κ : ℝ) (hκ : 
     unfold finish
     simp only [NumR.lt_real, NumR.gt_real, NumR.eq_real, NumR.lit0, Bool.and_eq_true,
       decide_eq_true_eq, h0, hd, and_self, if_true, hne, if_false, hb]
-    exact ⟨trivial, trivial⟩
 
 /-- C08.5 the propagator never changes the magnitude of the momentum: the result carries no
     momentum or energy at all (the particle view is read-only), the momentum of the internal ODE
@@ -207,7 +206,7 @@ example : (1 : ℝ) ≤ 100000 * ((1 / 100000 : ℝ) / 1) ∧ (1 : ℝ) ≤ 1 / 
 example : AnsOK (⟨1, 1 / 1000000, 1 / 100000, 10⟩ : Cfg ℝ) 1
     (PState.init ⟨1, 1 / 1000000, 1 / 100000, 10⟩ 1 ⟨0, 0, 0⟩ ⟨1, 0, 0⟩ false)
     ⟨⟨⟨⟨1 / 2, 0, 0⟩, ⟨1, 0, 0⟩⟩, 1 / 2⟩, ⟨false, 1 / 2 + 1 / 100000⟩⟩ := by
-  refine ⟨by norm_num, by simp [PState.init], ?_, by simp, by simp⟩
+  refine ⟨by norm_num, by simp only [PState.init]; norm_num, ?_, by simp, by simp⟩
   unfold chordLen
   rw [chord_length]
   simp only [PState.init, dsq]
